@@ -24,8 +24,8 @@ from rv import gen, oracle
 
 _SCALE = float(os.environ.get("RV_CASE_SCALE", "1") or 1)          # smoke-testing the thorough tier only
 PLAN = {
-    "quick": {"cases": int(6000 * _SCALE), "hashseeds": 3, "shards": 5, "timeout": 900,
-              "min_nontrivial": int(4000 * _SCALE)},
+    "quick": {"cases": int(5000 * _SCALE), "hashseeds": 3, "shards": 5, "timeout": 900,
+              "min_nontrivial": int(3300 * _SCALE)},
     "thorough": {"cases": int(20000 * _SCALE), "hashseeds": 12, "shards": 4, "timeout": 3300,
                  "min_nontrivial": int(13000 * _SCALE)},
 }
@@ -566,7 +566,10 @@ def gen_case(seed, idx, tier):
         size = 1
         for v in vs:
             size *= card[v]
-        spec["seq"] = {"on": seq_on, "factor": {"vars": vs, "values": _rand_vals(rng, size)}, "new_edge": new_edge,
+        f2 = {"vars": vs, "values": _rand_vals(rng, size)}
+        if joint_of(ug, ug["factors"] + [f2]).sum() <= 0:        # keep Z > 0 after the edit as well
+            f2["values"] = [x if x != 0 else 0.5 for x in f2["values"]]
+        spec["seq"] = {"on": seq_on, "factor": f2, "new_edge": new_edge,
                        "h": [rng.choice(HEURISTICS) for _ in range(3)]}
     return spec
 
